@@ -5,5 +5,9 @@ cd "$(dirname "$0")"
 mkdir -p _build
 cp ../coq/model.ml ../coq/model.mli entries.ml modelrun.ml _build/
 cd _build
+# the extracted model contains long literal lists (generated limb programs, constants): the compiler
+# needs more than the default stack
+ulimit -s unlimited 2>/dev/null || ulimit -s 1000000 2>/dev/null || true
+rm -f modelrun
 ocamlfind ocamlopt -O3 -w -a -package zarith -linkpkg model.mli model.ml entries.ml modelrun.ml -o modelrun 2>&1 | grep -v "options -O3 is only" || true
 test -x modelrun
